@@ -640,6 +640,14 @@ def c11_case(acc, sp, kw, rng, tier, xproc=None):
                 route=kw.get("route"))
     space = P.env.action_space
     nvec = [int(x) for x in space.nvec]
+    doc_nvec = [6, len(sp.subnets) - 1, max(sp.subnets), len(sp.os) + 1,
+                len(sp.services), len(sp.processes)]
+    acc.evaluations += 1
+    if nvec != doc_nvec:
+        # the documented space: type, subnet (without the internet), host
+        # (largest subnet), OS (+1 for "any"), service, process
+        acc.violation("param_space_dimensions", "param_space_dimensions",
+                      {"nvec": nvec, "documented": doc_nvec}, W("nvec"))
     total = int(np.prod(nvec))
     flat_set = {tuple(key(s)) for s in sig_mine}
     exhaustive = total <= z["vec_cap"]
@@ -658,6 +666,17 @@ def c11_case(acc, sp, kw, rng, tier, xproc=None):
         nv += 1
         acc.evaluations += 1
         v = list(v)
+        if any(x >= m for x, m in zip(v, doc_nvec)):
+            # outside the documented space (only possible when the space's
+            # dimensions are wrong, reported above): must still not raise
+            try:
+                space.get_action(v)
+            except Exception as e:      # noqa
+                acc.violation("vector_raised",
+                              f"vector_raised:{type(e).__name__}",
+                              {"vector": v, "error": str(e)[:150]},
+                              W("vector"))
+            continue
         d, flags = decode_vector(sp, v)
         rep = rng.random()
         arg = v if rep < 0.5 else (tuple(v) if rep < 0.7 else
